@@ -7,7 +7,9 @@
   evaluated here in numpy longdouble (independent of the Lean model and of hcipy's kernels);
 * correspondence: sizes / cut-outs / output grid / weights reported by FastFourierTransform against the
   model's `plan`, the grid-consistency predicate on the reported sizes, and the modelled pipeline on
-  impulses (exact phases in turns) against the real forward/backward.
+  impulses (exact phases in turns) against the real forward/backward; the class make_fourier_transform
+  returns against the model's decision function (`select`, both outcomes of the planner's float
+  comparison where it is consulted) and get_fft_parameters per axis against the exact model (`fftparams`).
 """
 import numpy as np
 from harness.common import rat, rat_list, Fraction, MachineryError
@@ -124,24 +126,34 @@ def gen_case(rng, big, directed=None):
     case['method'] = [None, None, None, 'numpy', 'scipy'][int(rng.integers(0, 5))]
     case['mft'] = [[bool(rng.integers(0, 2)), bool(rng.integers(0, 2))]]
     case['family'] = 'fft'
+    # physical scale: all input coordinates times 2^k (exact), all output coordinates divided by it
+    r = rng.random()
+    k = (int(rng.integers(-20, 11)) if r < 0.3 else (int(rng.integers(-20, -13)) if r < 0.42 else
+         (int(rng.integers(8, 15)) if r < 0.5 else 0)))
+    case['scale_exp'] = k
+    sc = 2.0 ** k
+    case['delta'] = [d * sc for d in case['delta']]
+    case['zero'] = [z * sc for z in case['zero']]
+    case['shift'] = [s / sc for s in case['shift']]
     if rng.random() < 0.3:
         case['family'] = 'grid'
         kind = str(rng.choice(['regular', 'regular', 'separated', 'unstructured']))
         out = {'kind': kind}
         if kind == 'regular':
             out['N'] = [int(rng.integers(1, max(2, min(2 * n, 40 if ndim < 3 else 7)) + 1)) for n in case['N']]
-            out['delta'] = [_dy(rng, 0.03125, 1.5, 5) for _ in range(ndim)]
-            out['zero'] = [_dy(rng, -3, 3, 4) for _ in range(ndim)]
+            out['delta'] = [_dy(rng, 0.03125, 1.5, 5) / sc for _ in range(ndim)]
+            out['zero'] = [_dy(rng, -3, 3, 4) / sc for _ in range(ndim)]
         elif kind == 'separated':
-            out['coords'] = [sorted(_dy(rng, -4, 4, 5) for _ in range(int(rng.integers(2, 12 if ndim < 3 else 5))))
+            out['coords'] = [sorted(set(_dy(rng, -4, 4, 5) / sc for _ in range(int(rng.integers(2, 12 if ndim < 3 else 5)))))
                              for _ in range(ndim)]
+            out['coords'] = [c if len(c) >= 2 else [c[0], c[0] + 1.0 / sc] for c in out['coords']]
         else:
             npts = int(rng.integers(1, 25))
-            out['coords'] = [[_dy(rng, -4, 4, 5) for _ in range(npts)] for _ in range(ndim)]
-            out['weights'] = [_dy(rng, 0.125, 2, 3) for _ in range(npts)]
+            out['coords'] = [[_dy(rng, -4, 4, 5) / sc for _ in range(npts)] for _ in range(ndim)]
+            out['weights'] = [_dy(rng, 0.125, 2, 3) / sc ** ndim for _ in range(npts)]
         case['out'] = out
         r = rng.random()
-        case['in_kind'] = 'regular' if r < 0.6 else ('separated' if r < 0.85 else 'unstructured')
+        case['in_kind'] = 'regular' if r < 0.45 else ('separated' if r < 0.85 else 'unstructured')
         if case['in_kind'] == 'separated' and min(case['N']) < 2:
             case['in_kind'] = 'regular'
         if case['in_kind'] != 'regular':
@@ -149,8 +161,91 @@ def gen_case(rng, big, directed=None):
                                  for d in range(ndim)]
             if case['in_kind'] == 'unstructured':
                 size = int(np.prod(case['N']))
-                case['in_weights'] = [_dy(rng, 0.125, 2, 3) for _ in range(size)]
+                case['in_weights'] = [_dy(rng, 0.125, 2, 3) * sc ** ndim for _ in range(size)]
     return case
+
+
+def gen_steps(rng, dims, nsteps):
+    """a call sequence for ONE transform object: direction, precision, tensor shape and field content change"""
+    steps = []
+    for _ in range(nsteps):
+        r = rng.random()
+        steps.append({'dir': 'f' if rng.random() < 0.5 else 'b',
+                      'dtype': 'complex64' if rng.random() < 0.4 else 'complex128',
+                      'tensor': [] if r < 0.5 else ([2] if r < 0.8 else [2, 2]),
+                      'field': gen_field(rng, dims),
+                      'gseed': int(rng.integers(0, 2 ** 31))})
+    return steps
+
+
+def gen_seq_case(rng, big):
+    """A small case with the parameter corners of the FFT (q = 1; fov < 1 with q·fov < 1, = 1, > 1) and a call
+    sequence that re-uses every transform object."""
+    case = gen_case(rng, False)
+    ndim = len(case['N'])
+    nmax = {1: 40 if big else 24, 2: 12 if big else 8, 3: 5}[ndim]
+    sc = 2.0 ** case['scale_exp']
+    for d in range(ndim):
+        N = int(rng.integers(1, nmax + 1))
+        q = [1.0, 1.0, 2.0, 1.5, 3.0, 1.25][int(rng.integers(0, 6))]
+        M = int(np.round(q * N))
+        corner = int(rng.integers(0, 4))
+        if corner == 0:
+            fov = 1.0
+        elif corner == 1:                       # q·fov = 1 : output as large as the input
+            fov = (N + 0.5) / M
+        elif corner == 2:                       # q·fov < 1
+            fov = (max(1, int(rng.integers(1, N + 1)) - 1) + 0.5) / M if N > 1 else 1.0
+        else:                                   # q·fov > 1, fov < 1
+            fov = (int(rng.integers(N, M + 1)) + 0.5) / M if M > N else 0.5
+        fov = min(1.0, fov)
+        if int(M * fov) < 1:
+            fov = 1.0
+        case['N'][d] = N
+        case['q'][d] = q
+        case['fov'][d] = float(fov)
+    if case['family'] == 'grid':
+        if case.get('in_kind', 'regular') == 'separated' and min(case['N']) < 2:
+            case['in_kind'] = 'regular'
+        if case.get('in_kind', 'regular') != 'regular':
+            case['in_jitter'] = [[_dy(rng, -0.25, 0.25, 4) * case['delta'][d] for _ in range(case['N'][d])] for d in range(ndim)]
+            if case['in_kind'] == 'unstructured':
+                case['in_weights'] = [_dy(rng, 0.125, 2, 3) * sc ** ndim for _ in range(int(np.prod(case['N'])))]
+    case['field'] = gen_field(rng, case['N'])
+    case['seq'] = gen_steps(rng, case['N'], int(rng.integers(3, 7)))
+    case['all_switches'] = True
+    return case
+
+
+def _steps(spec):
+    return [{'dir': d, 'dtype': t, 'tensor': ts, 'field': {'kind': 'random', 'seed': 100 + i}, 'gseed': 200 + i}
+            for i, (d, t, ts) in enumerate(spec)]
+
+
+# one object re-used: precision changes (MFT intermediate array), backward→forward and backward→forward→backward on
+# cropped / padded FFTs (stale internal array), and MFT on non-uniform separated grids at physical scales
+DIRECTED_SEQ = [
+    dict(family='fft', N=[6, 5], delta=[0.5, 0.25], zero=[-1.5, -0.5], q=[1.0, 1.0], fov=[1.0, 1.0], shift=[0.0, 0.0], tensor=[], dtype='complex128',
+         field={'kind': 'random', 'seed': 21}, gseed=21, method=None, mft=[[True, True]], all_switches=True, scale_exp=0,
+         seq=_steps([('f', 'complex64', []), ('b', 'complex64', []), ('f', 'complex128', [2]), ('b', 'complex128', []), ('f', 'complex64', [])])),
+    dict(family='fft', N=[8], delta=[0.25], zero=[-1.0], q=[2.0], fov=[0.8125], shift=[0.0], tensor=[], dtype='complex128',
+         field={'kind': 'random', 'seed': 22}, gseed=22, method=None, mft=[[True, True]], all_switches=True, scale_exp=0,
+         seq=_steps([('f', 'complex128', []), ('b', 'complex128', []), ('f', 'complex128', []), ('f', 'complex128', [2]), ('b', 'complex64', [])])),
+    dict(family='fft', N=[8, 6], delta=[0.25, 0.5], zero=[-1.0, -1.5], q=[1.0, 2.0], fov=[0.5625, 0.3125], shift=[0.25, 0.0], tensor=[], dtype='complex128',
+         field={'kind': 'random', 'seed': 23}, gseed=23, method=None, mft=[[True, True]], all_switches=True, scale_exp=0,
+         seq=_steps([('b', 'complex128', []), ('f', 'complex128', []), ('b', 'complex128', []), ('b', 'complex128', [2]), ('f', 'complex64', [])])),
+    # a 1 mm aperture in metres on a non-uniformly sampled separated grid: pixel areas ~1e-9
+    dict(family='grid', N=[9, 7], delta=[2.0 ** -15, 2.0 ** -15], zero=[-4 * 2.0 ** -15, -3 * 2.0 ** -15], q=[1.0, 1.0], fov=[1.0, 1.0], shift=[0.0, 0.0],
+         tensor=[], dtype='complex128', field={'kind': 'random', 'seed': 24}, gseed=24, method=None, mft=[[True, True]], all_switches=True, scale_exp=-15,
+         in_kind='separated', in_jitter=[[((i * 7) % 5 - 2) * 2.0 ** -18 for i in range(9)], [((i * 3) % 5 - 2) * 2.0 ** -18 for i in range(7)]],
+         out={'kind': 'separated', 'coords': [[-12000.0, -4000.0, -1000.0, 0.0, 2000.0, 10000.0], [-8192.0, -2048.0, 0.0, 1024.0, 12288.0]]},
+         seq=_steps([('f', 'complex128', []), ('b', 'complex128', [])])),
+    dict(family='grid', N=[6, 8], delta=[512.0, 512.0], zero=[-1536.0, -2048.0], q=[1.0, 1.0], fov=[1.0, 1.0], shift=[0.0, 0.0],
+         tensor=[2], dtype='complex128', field={'kind': 'random', 'seed': 25}, gseed=25, method=None, mft=[[True, True]], all_switches=True, scale_exp=9,
+         in_kind='regular',
+         out={'kind': 'separated', 'coords': [[-0.0004, -0.00015, -0.00005, 0.0, 0.0001, 0.00035], [-0.0003, -0.0001, 0.0, 0.00005, 0.00045]]},
+         seq=_steps([('b', 'complex128', []), ('f', 'complex64', [])])),
+]
 
 
 DIRECTED = [
@@ -364,10 +459,10 @@ def grids_close(a, b):
     if a.is_regular and b.is_regular:
         if not np.array_equal(a.dims, b.dims):
             return False
-        sc = max(1.0, float(np.max(np.abs(a.zero))))
+        sc = np.abs(a.zero) + np.abs(a.delta * a.dims)        # extent of the grid per axis (no absolute floor)
         return bool(np.all(np.abs(a.delta - b.delta) <= 1e-9 * np.abs(a.delta)) and np.all(np.abs(a.zero - b.zero) <= 1e-9 * sc))
     ca, cb = np.array(a.coords), np.array(b.coords)
-    return ca.shape == cb.shape and bool(np.all(np.abs(ca - cb) <= 1e-9 * max(1.0, np.abs(ca).max())))
+    return ca.shape == cb.shape and bool(np.all(np.abs(ca - cb) <= 1e-9 * max(np.abs(ca).max(), 1e-300)))
 
 
 def cls_of(name):
@@ -395,7 +490,7 @@ def oracle_case(case, thorough=False, want_obs=False):
     with Conf(case.get('method')):
         in_grid = make_in_grid(case)
         try:
-            out_grid, transforms = build_transforms(case, in_grid, thorough)
+            out_grid, transforms = build_transforms(case, in_grid, thorough or case.get('all_switches', False))
         except Exception as e:  # noqa
             return [('construct-raises', 'constructing the transform raised %s: %s' % (type(e).__name__, e))], obs
         field = make_field(case, in_grid)
@@ -415,9 +510,18 @@ def oracle_case(case, thorough=False, want_obs=False):
                 ft = thunk()
             except Exception as e:  # noqa
                 bad.append((cls_of(name) + '-construct-raises', '%s: constructing raised %s: %s' % (name, type(e).__name__, e)))
+                if name.startswith('auto') and isinstance(e, ValueError):
+                    obs.setdefault('auto', {})[name] = 'raises'
                 continue
             og = ft.output_grid
             info = {}
+            if name.startswith('auto'):
+                obs.setdefault('auto', {})[name] = type(ft).__name__
+                if name == 'auto-grid':
+                    try:
+                        obs['detected'] = bool(hcipy.fourier.is_fft_grid(out_grid, in_grid))
+                    except Exception as e:  # noqa
+                        obs['detected'] = '%s: %s' % (type(e).__name__, e)
             if isinstance(ft, hcipy.FastFourierTransform):
                 M = np.array(ft.internal_shape[::-1], dtype='float64')
                 prod = og.delta * M * in_grid.delta
@@ -449,14 +553,54 @@ def oracle_case(case, thorough=False, want_obs=False):
                     bad.append((failing_class(case, name, direction, info), '%s.%s returned %d values for %d points' % (name, direction, res.size, ref.size)))
                     continue
                 res = res.reshape(T, -1)
-                scale = max(1.0, float(np.abs(ref).max()))
+                scale = ref_scale(ref, arg, in_w if direction == 'forward' else grid_desc(og)[2] / float(TWO_PI_LD ** ndim))
                 err = float(np.abs(res.astype(CLD) - ref).max())
                 obs.setdefault('maxerr', {})
                 obs['maxerr'][cls_of(name)] = max(obs['maxerr'].get(cls_of(name), 0.0), err / scale)
                 if not err <= tol * scale:
                     bad.append((failing_class(case, name, direction, info),
                                 '%s.%s differs from the defining sum: max error %.3g (scale %.3g, tolerance %.1e·scale)' % (name, direction, err, scale, tol)))
+            # the same object, driven through further calls with changing precision, tensor shape and content
+            for si, st in enumerate(case.get('seq', [])):
+                scase = dict(case, tensor=st['tensor'], dtype=st['dtype'], field=st['field'], gseed=st['gseed'])
+                Ts = int(np.prod(st['tensor'])) if st['tensor'] else 1
+                ck = (key_og, si)
+                if ck not in ref_cache:
+                    o_sep, o_full, o_w = grid_desc(og)
+                    if st['dir'] == 'f':
+                        a = make_field(scase, in_grid)
+                        r = ref_sum(in_sep, in_full, in_w, o_sep, o_full, np.asarray(a).reshape(Ts, -1), -1, ndim)
+                        wsrc = in_w
+                    else:
+                        a = make_field(scase, og, which='g')
+                        r = ref_sum(o_sep, o_full, o_w, in_sep, in_full, np.asarray(a).reshape(Ts, -1), +1, ndim) / (TWO_PI_LD ** ndim)
+                        wsrc = o_w / float(TWO_PI_LD ** ndim)
+                    ref_cache[ck] = (a, r, wsrc)
+                a, r, wsrc = ref_cache[ck]
+                direction = 'forward' if st['dir'] == 'f' else 'backward'
+                try:
+                    res = np.asarray(ft.forward(a) if st['dir'] == 'f' else ft.backward(a))
+                except Exception as e:  # noqa
+                    bad.append(('%s-%s-reused-raises' % (cls_of(name), direction), '%s.%s (call %d on one object) raised %s: %s' % (name, direction, si + 3, type(e).__name__, e)))
+                    continue
+                if res.size != r.size:
+                    bad.append(('%s-%s-reused' % (cls_of(name), direction), '%s.%s (call %d on one object) returned %d values for %d points' % (name, direction, si + 3, res.size, r.size)))
+                    continue
+                scale = ref_scale(r, a, wsrc)
+                err = float(np.abs(res.reshape(Ts, -1).astype(CLD) - r).max())
+                obs['reuse_calls'] = obs.get('reuse_calls', 0) + 1
+                if not err <= tol_for(st['dtype']) * scale:
+                    bad.append(('%s-%s-reused' % (cls_of(name), direction),
+                                '%s.%s, call %d on one object (%s, tensor %s), differs from the defining sum: max error %.3g (scale %.3g); a fresh object is right' % (
+                                    name, direction, si + 3, st['dtype'], st['tensor'], err, scale)))
     return bad, obs
+
+
+def ref_scale(ref, arg, w):
+    """Scale of the comparison: the largest reference value, but at least 1e-3 of the bound Σ|f|·|w| of the sum
+    (no absolute floor: grids with physical scales have weights from 1e-12 to 1e6)."""
+    l1 = float(np.max(np.sum(np.abs(np.asarray(arg).reshape(ref.shape[0], -1)).astype(LD) * np.abs(w), axis=-1)))
+    return max(float(np.abs(ref).max()), 1e-3 * l1, 1e-300)
 
 
 # ---------------------------------------------------------------------------------------------
@@ -523,7 +667,7 @@ def correspondence_requests(case, ft):
             zero_m = float(TWO_PI_LD * LD(zT[d].numerator) / LD(zT[d].denominator) + LD(case['shift'][d]))
             if abs(og.delta[d] - delta_m) > 1e-12 * abs(delta_m):
                 return 'output delta[%d]: implementation %r, model %r' % (d, float(og.delta[d]), delta_m)
-            if abs(og.zero[d] - zero_m) > 1e-10 * max(1.0, abs(zero_m)):
+            if abs(og.zero[d] - zero_m) > 1e-10 * (abs(zero_m) + abs(delta_m) * Mos[d]):
                 return 'output zero[%d]: implementation %r, model %r' % (d, float(og.zero[d]), zero_m)
         w = float(Fraction(kv['w']))
         if not np.isscalar(ft.weights) or abs(ft.weights - w) > 1e-12 * abs(w):
@@ -540,6 +684,95 @@ def correspondence_requests(case, ft):
                      (lambda r, d=d: None if r == 'ok 1' else 'reported sizes are not grid-consistent on axis %d: N=%d internal M=%d Mo=%d, Δ·M·δ ≠ 2π' % (
                          d, Ns[d], Ms[d], Mos[d])), 'cons'))
     return reqs
+
+
+METHOD_OF = {'FastFourierTransform': 'fft', 'MatrixFourierTransform': 'mft', 'NaiveFourierTransform': 'naive', 'raises': 'raises'}
+
+
+def selection_requests(case, obs):
+    """The class make_fourier_transform returned vs the model's decision function.  The planner's
+    comparison `fft > mft` is a float decision: the request is sent for both outcomes and the
+    implementation's class has to be among the answers; where the code does not consult the planner
+    (three dimensions, an output grid that is not an FFT grid) the two answers have to coincide."""
+    reqs = []
+    ndim = len(case['N'])
+    in_kind = case.get('in_kind', 'regular')
+    for name, clsname in sorted(obs.get('auto', {}).items()):
+        if name == 'auto-q':
+            out = 'none'
+        elif case['family'] == 'fft':
+            out = 'fftgrid'          # the output grid of a FastFourierTransform on the same input (fft_grid_roundtrip)
+        else:
+            out = case['out']['kind']    # generic spacing (dyadic, in radians): 2π/(δ·Δ) is irrational, never an FFT grid
+        deterministic = ndim > 2 or out not in ('none', 'fftgrid')
+        lines = ['C01 select %s 1 %d %s %d' % (in_kind, ndim, out, cheaper) for cheaper in (1, 0)]
+        impl = METHOD_OF.get(clsname, clsname)
+        detected = obs.get('detected') if name == 'auto-grid' else None
+
+        def chk(rs, impl=impl, out=out, deterministic=deterministic, detected=detected, name=name):
+            answers = []
+            for r in rs:
+                if r.startswith('ok '):
+                    answers.append(r[3:])
+                elif r == 'err value':
+                    answers.append('raises')
+                else:
+                    return 'model: ' + r
+            if deterministic and len(set(answers)) != 1:
+                return '%s: the model consults the planner where the code does not (%s)' % (name, answers)
+            if impl not in answers:
+                return '%s: implementation built %s, model allows %s (input %s, output %s, %d-D)' % (
+                    name, impl, sorted(set(answers)), in_kind, out, ndim)
+            if detected is not None and detected != (out == 'fftgrid'):
+                return '%s: is_fft_grid says %r for an output grid the model classifies as %s' % (name, detected, out)
+            return None
+        reqs.append((lines, chk, 'select', '%s:%s:%s:%dD->%s' % (name, in_kind, out, ndim, impl)))
+    return reqs
+
+
+def fftparams_requests(case, ft):
+    """hcipy.fourier.get_fft_parameters(fft.output_grid, input_grid) per axis vs the exact model."""
+    import hcipy
+    dTs = reported_dT(ft, case['delta'])
+    if dTs is None:
+        return []
+    ndim = len(case['N'])
+    Mos = [int(m) for m in ft.shape_out[::-1]]
+    og_delta = np.asarray(ft.output_grid.delta, dtype='float64')
+    lines = []
+    for d in range(ndim):
+        zeroT = -dTs[d] * (Mos[d] // 2)
+        lines.append('C01 fftparams %d %s %d %s %s %s' % (case['N'][d], rat(case['delta'][d]), Mos[d], rat(dTs[d]), rat(zeroT), rat(case['shift'][d])))
+    try:
+        q, fov, shift = hcipy.fourier.get_fft_parameters(ft.output_grid, ft.input_grid)
+        q, fov, shift = (np.ones(ndim) * np.asarray(v, dtype='float64') for v in (q, fov, shift))
+        err = None
+    except ValueError as e:
+        err = str(e)
+
+    def chk(rs):
+        for d, r in enumerate(rs):
+            if err is not None:
+                if r != 'err value':
+                    return 'get_fft_parameters raised ValueError (%s) on the output grid of a FastFourierTransform, model: %s' % (err, r)
+                continue
+            if not r.startswith('ok '):
+                return 'axis %d: get_fft_parameters returned q=%r fov=%r shift=%r, model: %s' % (d, q[d], fov[d], shift[d], r)
+            mq, mfov, mshT, ms = (Fraction(x) for x in r.split()[1:])
+            N, Mo = case['N'][d], Mos[d]
+            if abs(q[d] - float(mq)) > 1e-9 * max(1.0, abs(float(mq))):
+                return 'axis %d: q implementation %r, model %s' % (d, float(q[d]), mq)
+            mshift = float(TWO_PI_LD * LD(mshT.numerator) / LD(mshT.denominator) + LD(ms.numerator) / LD(ms.denominator))
+            if abs(shift[d] - mshift) > 1e-9 * (abs(mshift) + abs(float(og_delta[d])) * Mo):
+                return 'axis %d: shift implementation %r, model %r' % (d, float(shift[d]), mshift)
+            M = mq * N
+            if M.denominator != 1 or (M * mfov).__floor__() != Mo:
+                return 'axis %d: the model parameters q=%s fov=%s do not reproduce Mo=%d' % (d, mq, mfov, Mo)
+            if int(np.round(q[d] * N) * fov[d]) != Mo:
+                return 'axis %d: the reconstructed q=%r fov=%r give int(round(q N)·fov) = %d points, the grid has %d' % (
+                    d, float(q[d]), float(fov[d]), int(np.round(q[d] * N) * fov[d]), Mo)
+        return None
+    return [(lines, chk, 'fftparams')]
 
 
 def impulse_requests(case, ft_by_cfg, rng_seed):
@@ -602,7 +835,7 @@ def compare_impulse(resps, res, ndim):
     pipe, summ = out
     if pipe.size != res.size:
         return 'model returns %d samples, implementation %d' % (pipe.size, res.size)
-    scale = max(1.0, float(np.abs(pipe).max()))
+    scale = max(float(np.abs(pipe).max()), 1e-300)
     e1 = float(np.abs(res.astype(CLD) - pipe).max())
     e2 = float(np.abs(summ - pipe).max())
     if not e1 <= 1e-9 * scale:
@@ -628,6 +861,15 @@ def count_case(ctx, case, obs):
     ctx.count('tensor-rank:%d' % len(case['tensor']))
     ctx.count('dtype:' + case['dtype'])
     ctx.count('field:' + case['field']['kind'])
+    k = case.get('scale_exp', 0)
+    ctx.count('input-scale:' + ('1' if k == 0 else ('2^-20..2^-11' if k <= -11 else ('2^-10..2^-1' if k < 0 else ('2^1..2^7' if k < 8 else '2^8..2^14')))))
+    if 'seq' in case:
+        ctx.count('reuse-sequence-cases')
+        ctx.count('reuse-calls', obs.get('reuse_calls', 0))
+        for d in range(ndim):
+            qf = Fraction(case['q'][d]) * Fraction(case['fov'][d])
+            ctx.count('reuse-axis:q=1' if case['q'][d] == 1 else 'reuse-axis:q>1')
+            ctx.count('reuse-axis:fov=1' if case['fov'][d] == 1 else ('reuse-axis:fov<1,q·fov<1' if qf < 1 else ('reuse-axis:fov<1,q·fov≈1' if qf < 1 + Fraction(1, 2 * max(1, case['N'][d])) * 2 else 'reuse-axis:fov<1,q·fov>1')))
     ctx.count('fft-backend:' + str(case.get('method')))
     if case['family'] == 'grid':
         ctx.count('out-grid:' + case['out']['kind'])
@@ -652,6 +894,62 @@ def count_case(ctx, case, obs):
             ctx.count('non-square')
 
 
+# ---------------------------------------------------------------------------------------------
+# make_fourier_transform on grids that only *look like* FFT grids (defect class D63)
+
+EDGE_CASES = [
+    {'family': 'select-edge', 'kind': 'polar', 'N': [8, 6], 'delta': [0.25, 0.5], 'zero': [-1.0, -1.5], 'q': 2.0, 'fov': 0.5, 'seed': 11},
+    {'family': 'select-edge', 'kind': 'polar', 'N': [5, 7], 'delta': [0.5, 0.25], 'zero': [-1.0, -0.75], 'q': 1.0, 'fov': 1.0, 'seed': 12},
+    {'family': 'select-edge', 'kind': 'ndim', 'N': [8, 6], 'delta': [0.25, 0.5], 'zero': [-1.0, -1.5], 'q': 2.0, 'fov': 0.5, 'seed': 13},
+    {'family': 'select-edge', 'kind': 'ndim', 'N': [4, 4, 3], 'delta': [0.5, 0.5, 1.0], 'zero': [-1.0, -1.0, -1.0], 'q': 1.0, 'fov': 1.0, 'seed': 14},
+]
+
+
+def edge_case_oracle(case):
+    """A regular polar grid with the numbers of an FFT grid, and a regular grid with fewer axes than the
+    input: make_fourier_transform must either raise ValueError or return a transform onto the grid that
+    was requested (and then evaluate the defining sum there)."""
+    import hcipy
+    bad = []
+    ndim = len(case['N'])
+    g = hcipy.CartesianGrid(hcipy.RegularCoords(np.array(case['delta']), np.array(case['N']), np.array(case['zero'])))
+    og = hcipy.make_fft_grid(g, case['q'], case['fov'])
+    rng = np.random.default_rng(case['seed'])
+    f = hcipy.Field(rng.normal(size=g.size) + 1j * rng.normal(size=g.size), g)
+    if case['kind'] == 'polar':
+        req = hcipy.PolarGrid(hcipy.RegularCoords(og.delta, og.dims, og.zero))
+        key = 'selection-noncartesian-fft-grid'
+    else:
+        req = hcipy.CartesianGrid(hcipy.RegularCoords(og.delta[:1], og.dims[:1], og.zero[:1]))
+        key = 'selection-ndim-mismatch'
+    try:
+        ft = hcipy.make_fourier_transform(g, req)
+    except ValueError:
+        return bad
+    except Exception as e:  # noqa
+        return [(key, 'make_fourier_transform raised %s: %s' % (type(e).__name__, e))]
+    og2 = ft.output_grid
+    same = og2 is req or (og2.ndim == req.ndim and og2.size == req.size and type(og2) is type(req)
+                          and np.allclose(np.array(og2.coords), np.array(req.coords), rtol=1e-12, atol=1e-12))
+    if not same:
+        return [(key, 'make_fourier_transform(%d-D Cartesian grid, %s) returned a %s onto a %s with %d axes and %d points instead of the requested grid (%d axes, %d points)' % (
+            ndim, type(req).__name__ + (' with FFT-grid numbers' if case['kind'] == 'polar' else ' with fewer axes'), type(ft).__name__,
+            type(og2).__name__, og2.ndim, og2.size, req.ndim, req.size))]
+    if req.ndim == ndim:
+        cart = req.as_('cartesian')
+        o_full = [np.asarray(c, dtype=LD) for c in cart.coords]
+        in_sep = [LD(case['zero'][d]) + LD(case['delta'][d]) * np.arange(case['N'][d], dtype=LD) for d in range(ndim)]
+        w = LD(1)
+        for dl in case['delta']:
+            w = w * LD(dl)
+        ref = ref_sum(None, full_coords(in_sep), w, None, o_full, np.asarray(f).reshape(1, -1), -1, ndim)
+        res = np.asarray(ft.forward(f)).reshape(1, -1)
+        err = float(np.abs(res.astype(CLD) - ref).max())
+        if not err <= 1e-9 * ref_scale(ref, f, w):
+            bad.append((key, '%s.forward on the requested grid differs from the defining sum by %.3g' % (type(ft).__name__, err)))
+    return bad
+
+
 def run(ctx, prop='C01'):
     ctx.rule = ('grid pairs and fields from VERIF_SEED: directed corpus first (N=87,q=2.5; size-1 axes; 3-D; tensor fields), then random '
                 'cases: 1-3 dimensions, sizes from {1,2,3,4,5,7,8,9,16,17,31,64,87,101} or uniform, dyadic spacings/offsets/shifts, '
@@ -661,16 +959,27 @@ def run(ctx, prop='C01'):
                 'Every applicable implementation (FFT both shift settings and the configured one, MFT switches, NFT both, Zoom, '
                 'make_fourier_transform by parameters and by grid) is compared, forward and backward, with the defining sum evaluated '
                 'in longdouble. Correspondence: reported sizes/cut-outs/output grid/weights vs the model plan, grid consistency of the '
-                'reported sizes, modelled pipeline on impulses vs the real transform (both settings, both directions). '
+                'reported sizes, modelled pipeline on impulses vs the real transform (both settings, both directions); the class '
+                'make_fourier_transform returns vs the model decision (both planner outcomes where the planner is consulted, equality '
+                'elsewhere) and get_fft_parameters on the FFT output grid vs the exact per-axis model. '
                 'Non-trivial = more than one input sample; distinct by (family, sizes, tensor shape, dtype, field kind, shifted axes).')
     ctx.assumptions += ['numpy/scipy fftn/ifftn compute the DFT / inverse DFT with 1/M normalisation; fftshift/ifftshift roll by ±(M//2)',
                         'BLAS gemm and np.dot compute matrix products', 'x86 longdouble (64-bit mantissa) reference sums are exact to 1e-15 relative',
                         'the dyadic grid parameters generated are exactly representable, so the model sees the rationals the code sees']
     thorough = ctx.tier == 'thorough'
-    n = ctx.scale(140, 900)
+    n = ctx.scale(110, 800)
     cases = [dict(c) for c in DIRECTED]
     for i in range(n):
         cases.append(gen_case(ctx.rng, big=thorough and i % 4 == 0))
+    nseq = ctx.scale(45, 400)
+    for i in range(nseq):
+        cases.append(gen_seq_case(ctx.rng, big=thorough))
+    cases += [dict(c) for c in DIRECTED_SEQ]
+    for ec in EDGE_CASES:
+        for key, what in edge_case_oracle(ec):
+            ctx.violation(key, what, ec)
+        ctx.count('select-edge:' + ec['kind'])
+        ctx.case(None, ('select-edge', ec['kind'], tuple(ec['N'])))
     lines = []
     checks = []
     worst = {}
@@ -684,11 +993,18 @@ def run(ctx, prop='C01'):
         size = int(np.prod(case['N']))
         ctx.case({k: case[k] for k in ('family', 'N', 'q', 'fov', 'shift', 'tensor', 'dtype')}, case_signature(case, obs) if size > 1 else None)
         ft = obs.get('fft')
+        for ls, chk, stream, label in selection_requests(case, obs):
+            ctx.count('select:' + label)
+            checks.append((len(lines), len(ls), chk, case, stream))
+            lines += ls
         if ft is not None and case['family'] == 'fft':
             import hcipy
             for line, chk, stream in correspondence_requests(case, ft):
                 checks.append((len(lines), 0, chk, case, stream))
                 lines.append(line)
+            for ls, chk, stream in fftparams_requests(case, ft):
+                checks.append((len(lines), len(ls), chk, case, stream))
+                lines += ls
             if int(np.prod(ft.internal_shape)) <= (400000 if thorough else 60000):
                 q, fov, shift = np.array(case['q']), np.array(case['fov']), np.array(case['shift'])
                 try:
@@ -716,7 +1032,10 @@ def run(ctx, prop='C01'):
 
 
 def replay(ctx, case):
-    bad, obs = oracle_case(case, thorough=True)
+    if case.get('family') == 'select-edge':
+        bad = edge_case_oracle(case)
+    else:
+        bad, obs = oracle_case(case, thorough=True)
     for key, what in bad:
         print('  fails:', key, '-', what)
     return not bad
